@@ -117,9 +117,44 @@ func inlinedResult(c *ssa.Call, idx int) (ssa.Value, *ssa.Function) {
 		return nil, nil
 	}
 	ret := singleReturn(callee)
-	if ret == nil || idx >= len(ret.Results) {
+	if ret == nil {
+		// the usual (values..., error) helper: the values a caller goes on to use are those of the one return that
+		// reports success (every other return carries an error, which the outcome analysis follows)
+		ret = successReturn(callee)
+		if ret == nil || idx >= len(ret.Results)-1 {
+			return nil, nil
+		}
+	}
+	if idx >= len(ret.Results) {
 		return nil, nil
 	}
 	rs := unspill(ret)
 	return rs[idx], callee
+}
+
+// successReturn: f's last result is an error and exactly one return statement returns a nil error.
+func successReturn(f *ssa.Function) *ssa.Return {
+	res := f.Signature.Results()
+	if res.Len() < 2 || !isErrorType(res.At(res.Len()-1).Type()) {
+		return nil
+	}
+	var ret *ssa.Return
+	for _, b := range f.Blocks {
+		if len(b.Instrs) == 0 || b == f.Recover {
+			continue
+		}
+		r, ok := b.Instrs[len(b.Instrs)-1].(*ssa.Return)
+		if !ok {
+			continue
+		}
+		rs := unspill(r)
+		if len(rs) != res.Len() || !isNilConst(rs[len(rs)-1]) {
+			continue
+		}
+		if ret != nil {
+			return nil
+		}
+		ret = r
+	}
+	return ret
 }
